@@ -808,4 +808,46 @@ theorem mergePureNumber_mem (sp : Nat → Bool) (src : Str) (gapOK : Nat → Nat
   · exact Or.inl h
   · exact Or.inr (pureNumbers_mem sp src gapOK ers x nums 0 h)
 
+/-! ### lengths (the lockstep variant of `unit_is_prefix`) -/
+
+theorem applyMask_length_le {α β} : ∀ (l1 : List α) (l2 : List β) (m : List Bool), l1.length ≤ l2.length →
+    (applyMask l1 m).length ≤ (applyMask l2 m).length := by
+  intro l1
+  induction l1 with
+  | nil => intro l2 m _; simp [applyMask]
+  | cons x xs ih =>
+    intro l2 m h
+    cases l2 with
+    | nil => simp at h
+    | cons y ys =>
+      have h' : xs.length ≤ ys.length := by simpa using h
+      cases m with
+      | nil => simpa [applyMask] using h'
+      | cons b bs =>
+        cases b with
+        | true => simpa [applyMask] using ih ys bs h'
+        | false => simpa [applyMask] using ih ys bs h'
+
+theorem sepStep_length (ambTerm : Str) (nonUnit : List (Nat × Nat)) (acc : List Bool × List ER) (m : Nat × Str) :
+    acc.2.length ≤ (sepStep ambTerm nonUnit acc m).2.length := by
+  unfold sepStep
+  repeat' split
+  all_goals simp
+
+theorem separateUnits_length_ge (srcLen : Nat) (ambTerm : Str) (nonUnit : List (Nat × Nat)) (res : List ER)
+    (sep : List (Nat × Str)) : res.length ≤ (separateUnits srcLen ambTerm nonUnit res sep).length := by
+  unfold separateUnits
+  have gen : ∀ (sep : List (Nat × Str)) (acc : List Bool × List ER),
+      acc.2.length ≤ (sep.foldl (sepStep ambTerm nonUnit) acc).2.length := by
+    intro sep
+    induction sep with
+    | nil => intro acc; simp
+    | cons m ms ih => intro acc; exact Nat.le_trans (sepStep_length ambTerm nonUnit acc m) (ih _)
+  exact gen sep (List.foldl (fun mk e => markRange mk e.start e.len) (List.replicate srcLen false) res, res)
+
+theorem ResOK.erEnd_le {src : Str} {r : ER} (h : ResOK src r) : erEnd r ≤ (src.length : Int) := by
+  have := h.1
+  unfold erEnd
+  omega
+
 end RTV.UnitExtract
